@@ -542,8 +542,11 @@ class ResolveGen(object):
                                                       sc.c, sc.F))
         s.rvec("freq", sc.freqs)
         s.op("vnacal_new_set_frequency_vector $%s @freq" % name)
-        s.op("vnacal_new_set_p_tolerance $%s %s" % (name, hx(1e-13)))
-        s.op("vnacal_new_set_et_tolerance $%s %s" % (name, hx(1e-13)))
+        if getattr(self, "kind", "unknown") == "unknown":
+            # full precision for the truth comparison; a correlated parameter
+            # (weighted problem) keeps the default tolerances
+            s.op("vnacal_new_set_p_tolerance $%s %s" % (name, hx(1e-13)))
+            s.op("vnacal_new_set_et_tolerance $%s %s" % (name, hx(1e-13)))
         uid = [idx0 * 1000]
         order = self.rng.permutation(len(sc.stds))
         for k, i in enumerate(order):
@@ -576,7 +579,16 @@ class ResolveGen(object):
         base = complex(r.standard_normal(), r.standard_normal()) * 0.4
         guess = base + complex(r.standard_normal(), r.standard_normal()) * 0.03
         s.op("pg=vnacal_make_scalar_parameter $vc %s" % cx(guess))
-        s.op("uu=vnacal_make_unknown_parameter $vc $pg")
+        self.kind = "correlated" if r.random() < 0.25 else "unknown"
+        if self.kind == "correlated":
+            # tied to $pg with a prior: the solved value is pulled towards the
+            # guess, so only "finite on its own grid / refused elsewhere" is
+            # asserted for it
+            s.rvec("sg", [float(r.uniform(0.02, 0.2))])
+            s.op("uu=vnacal_make_correlated_parameter $vc $pg NULL 1 @sg")
+        else:
+            s.op("uu=vnacal_make_unknown_parameter $vc $pg")
+        self.shape = self.shape + (self.kind,)
         t1, _ = self.unknown_stds(sc1, "$uu", base)
         t2, _ = self.unknown_stds(sc2, "$uu", base)
         s.rvec("grid1", sc1.freqs)
